@@ -1,5 +1,6 @@
 import ScrapliModel.Lemmas.Pipe
 import ScrapliModel.Generated.Consts
+import ScrapliModel.Generated.SshArgv
 /-!
 # C16 — Built-in transports are transparent, ordered byte pipes that unblock on close
 
@@ -557,6 +558,47 @@ theorem mergeVerdict_iff (a b m : Bytes) (ha : ∀ x ∈ a, lowByte x = true) (h
 
 example : IsMerge [1, 2] [200, 201] [1, 200, 201, 2] :=
   IsMerge.left 1 (IsMerge.right 200 (IsMerge.right 201 (IsMerge.left 2 IsMerge.nil)))
+
+/-! ## The ssh client of the system transport gets no escape character
+
+With a tty the OpenSSH client interprets `~` at the start of a line of its *input* (`~.` ends the
+session, `~~` sends one `~`): bytes written to the transport would not reach the peer unmodified.
+The transport turns that off on the command line. Proved from the body of `buildOpenArgs` as the
+translator regenerates it from `transport/system.go`, for every configuration. -/
+
+/-- **escapechar_none_always**: whatever the host, port, user, time-out, strict-key setting,
+known-hosts file, ssh config file (none, given, system), private key, extra arguments and previous
+content of `OpenArgs`, the argv built for the ssh client carries `-o EscapeChar=none` at positions
+7 and 8 — before the config file option, before the user's extra arguments (ssh keeps the first
+value it obtains for an option and reads the command line before any file) — and it is followed by
+the rest of the vector. -/
+theorem escapechar_none_always (a : SshCfg.Args) (s : SshCfg.SSHArgs) (extra o : List Bytes) :
+    ((Gen.SshArgv.buildOpenArgs a s extra o).drop 7).take 2 = [dashO, escapeCharNone] ∧
+    ∃ pre post, pre.length = 7 ∧
+      Gen.SshArgv.buildOpenArgs a s extra o = pre ++ [dashO, escapeCharNone] ++ post := by
+  have key : (Gen.SshArgv.buildOpenArgs a s extra o).take 9 =
+      [a.host, ([45,112] : Bytes), SshCfg.fmtInt a.port, ([45,111] : Bytes),
+       (([67,111,110,110,101,99,116,84,105,109,101,111,117,116,61] : Bytes) ++ SshCfg.fmtInt (SshCfg.timeoutSeconds a.timeoutNs)),
+       ([45,111] : Bytes),
+       (([83,101,114,118,101,114,65,108,105,118,101,73,110,116,101,114,118,97,108,61] : Bytes) ++ SshCfg.fmtInt (SshCfg.timeoutSeconds a.timeoutNs)),
+       dashO, escapeCharNone] := by
+    simp only [Gen.SshArgv.buildOpenArgs, dashO, escapeCharNone]
+    repeat' split
+    all_goals simp
+  have hsplit := List.take_append_drop 9 (Gen.SshArgv.buildOpenArgs a s extra o)
+  rw [key] at hsplit
+  constructor
+  · rw [← hsplit]; rfl
+  · refine ⟨[a.host, ([45,112] : Bytes), SshCfg.fmtInt a.port, ([45,111] : Bytes),
+       (([67,111,110,110,101,99,116,84,105,109,101,111,117,116,61] : Bytes) ++ SshCfg.fmtInt (SshCfg.timeoutSeconds a.timeoutNs)),
+       ([45,111] : Bytes),
+       (([83,101,114,118,101,114,65,108,105,118,101,73,110,116,101,114,118,97,108,61] : Bytes) ++ SshCfg.fmtInt (SshCfg.timeoutSeconds a.timeoutNs))],
+      (Gen.SshArgv.buildOpenArgs a s extra o).drop 9, rfl, ?_⟩
+    exact hsplit.symm
+
+example : ((Gen.SshArgv.buildOpenArgs ⟨[104], 22, [117], [], 30000000000⟩
+    { strictKey := true, configFile := [47, 99] } [[45, 118]] []).drop 7).take 2 = [dashO, escapeCharNone] := by
+  decide
 
 /-! ## The wrapper's slice and error handling -/
 
